@@ -235,11 +235,11 @@ def maxStrDigits : Nat := 4300
 
 /-- `parse_numeric(name)` = `_parse_numeric_array(name, 1, None, int, False)`: the run of ASCII digits at
 `off`; none → `InvalidValue`; the value and the consumed length.  A run longer than `maxStrDigits` makes
-`int()` raise `ValueError`, which nothing translates (finding `text-int-max-str-digits`, C02). -/
+`int()` raise `ValueError`, which is translated to `InvalidValue` (repaired: it used to escape). -/
 def parseNumeric (b : Bytes) (off : Nat) : Except PErr (Nat × Nat) :=
   let ds := (b.drop off).takeWhile isDigit
   if ds.isEmpty then .error .invalidValue
-  else if maxStrDigits < ds.length then .error (.crash "ValueError")
+  else if maxStrDigits < ds.length then .error .invalidValue
   else .ok (decVal ds, ds.length)
 
 /-! ### cost model of `_parse_string_array` (feeds C19)
